@@ -2,7 +2,7 @@
    Statement file.  A Gaussian is its (mean, covariance) pair (DESIGN section 7); "the law of
    A X + b" is (A m + b, A C A^T).  Generic field: holds for Qc (executable) and R. *)
 From Coq Require Import Arith ZArith List Bool Reals.
-From GPV Require Import Base.LinAlg Base.Exec Base.PySlice Models.C11_mtmvn Models.C10_mvn Proofs.C10_mvn Proofs.C10_kl.
+From GPV Require Import Base.LinAlg Base.Exec Base.Expr Base.PySlice Models.C11_mtmvn Models.C10_mvn Proofs.C10_mvn Proofs.C10_kl.
 Import ListNotations.
 
 (* indexing = marginal: for ANY index function p into the event dimension (slices, index
@@ -101,17 +101,38 @@ Print Assumptions c10_kl_self_zero_partial.
 (* partial: KL >= 0 and the equality of the code's Cholesky / inv_quad_logdet form with this
    closed form need log det monotonicity (DESIGN 9.3); tested by the driver. *)
 
-(* KL >= 0 (over R, every n): kl_mvn_mvn computes  2 KL = tr(W W^T) + |d|^2 - n - log det(W W^T)  with
-   W = Lq^-1 Lp (root / Cholesky factors: inv_quad_logdet of q against [mean_diffs, root_p]) and
-   d = Lq^-1 (mp - mq); for triangular W with positive diagonal log det(W W^T) = sum_i ln w_ii^2.
-   Holds for ANY square W with positive diagonal.  partial: the identification of tr(W W^T) with
-   tr(Q^-1 P) of c10_kl_self_zero_partial (cyclic trace) and of the log-det difference with the sum of
-   logs of the diagonal is not proved (it is how linear_operator evaluates logdet; tested at 1e-8). *)
-Theorem c10_kl_nonnegative_cholesky_form_partial :
+(* KL in the form the code computes it.  kl_mvn_mvn evaluates inv_quad_logdet of q against
+   [mean_diffs, root_p], i.e. with P = Lp Lp^T and Q^-1 = Li^T Li (Li = Lq^-1):
+   the rational part of the model's KL IS the Cholesky form |Li Lp|_F^2 + |Li (mp - mq)|^2 - n
+   (generic field, every n, any factors) *)
+Theorem c10_kl_rational_cholesky_form :
+  forall (K : Fld) n (mp mq Lp Li : M),
+    kl_rational n mp (mmul n Lp (mT Lp)) mq (mmul n (mT Li) Li)
+    = fsub (fadd (sum n (fun i => sum n (fun j => fmul (mmul n Li Lp i j) (mmul n Li Lp i j))))
+                 (sum n (fun a => fmul (mmul n Li (msub mp mq) a O) (mmul n Li (msub mp mq) a O))))
+           (nat_f n).
+Proof. intros K. exact (@kl_rational_chol K). Qed.
+Print Assumptions c10_kl_rational_cholesky_form.
+
+(* KL >= 0 over R, every n: 2 KL = kl_rational + ln det Q - ln det P, and for W = Li Lp with positive
+   diagonal (lower triangular when both are Cholesky factors) ln det P - ln det Q = sum_i ln w_ii^2.
+   partial: that last identity (determinant of a triangular factor = product of its diagonal, which is
+   how linear_operator evaluates logdet) is taken as the meaning of the log-det difference, not proved;
+   the driver compares kl_divergence with the closed form using exact determinants at 1e-8. *)
+Theorem c10_kl_nonnegative_partial :
+  forall n (mp mq Lp Li : @M RF),
+    (forall i, (i < n)%nat -> (0 < @mmul RF n Li Lp i i)%R) ->
+    (0 <= @kl_rational RF n mp (@mmul RF n Lp (@mT RF Lp)) mq (@mmul RF n (@mT RF Li) Li)
+          - rsum n (fun i => ln (@mmul RF n Li Lp i i * @mmul RF n Li Lp i i)))%R.
+Proof. exact kl_model_nonneg. Qed.
+Print Assumptions c10_kl_nonnegative_partial.
+
+(* the inequality behind it, for ANY square W with positive diagonal and any d *)
+Theorem c10_kl_cholesky_form_nonnegative :
   forall n (W : nat -> nat -> R) (d : nat -> R),
     (forall i, (i < n)%nat -> (0 < W i i)%R) -> (0 <= kl2_chol n W d)%R.
 Proof. exact kl2_chol_nonneg. Qed.
-Print Assumptions c10_kl_nonnegative_cholesky_form_partial.
+Print Assumptions c10_kl_cholesky_form_nonnegative.
 
 Theorem c10_kl_cholesky_form_self_zero :
   forall n, kl2_chol n (fun i j => if Nat.eqb i j then 1%R else 0%R) (fun _ => 0%R) = 0%R.
@@ -134,3 +155,6 @@ Example ex_c10_kl_self :
   @kl_rational QcF 2 (fun _ _ => qc 1 2) (@of_list QcF [[qc 2 1; qc 1 1]; [qc 1 1; qc 2 1]])
                (fun _ _ => qc 1 2) (@of_list QcF [[qc 2 3; qc (-1) 3]; [qc (-1) 3; qc 2 3]]) = qc 0 1.
 Proof. vm_compute. reflexivity. Qed.
+Example ex_c10_kl_nonneg_hypothesis :
+  (0 < @mmul RF 1 (fun _ _ => 2%R) (fun _ _ => 3%R) 0%nat 0%nat)%R.
+Proof. unfold mmul. cbn. Lra.lra. Qed.
